@@ -84,7 +84,29 @@ func odScenario(r *rand.Rand, wide bool) In {
 				q = Req{Task: task, Kind: "revert", TxID: id, Force: r.Intn(4) == 0}
 			}
 		}
+		// scripts with a second send statement: the same pair again (the allowance must not be granted
+		// twice) or the same account in the other asset (two balances read and locked by one statement)
+		if q.Kind == "send" && !q.Force && r.Intn(4) == 0 {
+			l := Leg{Src: q.Src, Dst: q.Dst, Asset: q.Asset, Amount: smallAmount(r), Allow: q.Allow}
+			if r.Intn(2) == 0 {
+				l.Asset = odAssets[0]
+				if q.Asset == odAssets[0] {
+					l.Asset = odAssets[1]
+				}
+			}
+			q.Legs = []Leg{l}
+		}
 		in.Reqs = append(in.Reqs, q)
+	}
+	// sometimes a second ledger of the same bucket holds rows for the same (account, asset) pairs:
+	// they must never be read, locked or changed by writers of the first ledger
+	if r.Intn(4) == 0 {
+		in.Ledgers = append(in.Ledgers, LedgerSpec{Name: "m", HashLogs: "DISABLED"})
+		for _, a := range odSources[:2] {
+			for _, as := range odAssets {
+				in.Setup = append(in.Setup, Req{Task: fmt.Sprintf("s%d", len(in.Setup)+1), Kind: "send", Ledger: "m", Src: "world", Dst: a, Asset: as, Amount: "1000"})
+			}
+		}
 	}
 	in.SchedSeed = r.Int63n(1 << 30)
 	return in
